@@ -65,6 +65,7 @@ def _rules():
             lambda R, c, rid: c16.rule_h(R, c, rid),
             lambda R, c, rid: c16.rule_f(R, c, rid),
             lambda R, c, rid: c16.rule_j(R, c, rid),
+            lambda R, c, rid: accessors.blocks_cursor(R, c, rid),
         ],
         "slice": [
             lambda R, c, rid: c13.rule_c(R, c, rid),
@@ -157,7 +158,7 @@ DEPENDS = {
     "C08": ["slice", "delete-set", "partial", "block-wire", "state-vector", "merge"],
     "C09": ["slice", "partial", "content", "identity", "weak-wire", "block-wire"],
     "C11": ["liveness", "observers"],
-    "C12": ["splice", "squash", "lookup"],
+    "C12": ["splice", "squash", "lookup", "delete-set"],
     "C13": ["splice", "delete-set", "lookup", "content", "export", "liveness", "state-vector", "block-wire"],
     "C14": ["splice", "liveness", "lookup", "redone", "block-iter", "identity"],
     "C15": ["squash", "splice", "content", "block-wire", "liveness"],
